@@ -480,6 +480,7 @@ class StmtMixin:
         frame = self.resolve_defaults(st, cm.x, f)
         fid = st.new_frame(f.x.get("env"), f.x["module"])
         st.frames[fid].update(frame)
+        st.frames[fid]["$fn"] = fn
         st.fid = fid
         outer_handler = st.yield_handler
         yielded = [0]
